@@ -74,6 +74,17 @@ func (r *recorder) DeleteChange(o util.Node) {
 	r.ChangeCollectorI.DeleteChange(o)
 }
 
+// pruneRec wraps the persistent node DB and records the version of every PruneBelowVersion call.
+type pruneRec struct {
+	*util.PNodeDB
+	versions *[]int64
+}
+
+func (p *pruneRec) PruneBelowVersion(ctx context.Context, version int64) error {
+	*p.versions = append(*p.versions, version)
+	return p.PNodeDB.PruneBelowVersion(ctx, version)
+}
+
 type bsh struct{}
 
 func (bsh) SaveMagicBlock() chain.MagicBlockSaveFunc { return nil }
@@ -168,6 +179,7 @@ type stepOut struct {
 	kind     string
 	blk      *blockRec
 	readable []bool
+	ver      int64 // version passed to PruneBelowVersion (-1: none)
 	r0       int
 }
 
@@ -201,7 +213,10 @@ func run(h hist, scratch string, kinds map[string]int) (res result) {
 		_ = os.RemoveAll(dir)
 	}()
 	ctx := context.Background()
-	pndb := c.GetStateDB()
+	pndb := c.GetStateDB().(*util.PNodeDB)
+	var versions []int64
+	c.VerifSetStateDB(&pruneRec{PNodeDB: pndb, versions: &versions})
+	prunedMax := int64(-1)
 
 	// genesis-like latest finalized block with an empty state
 	gb := block.NewBlock("", int64(h.Start-1))
@@ -316,8 +331,24 @@ func run(h hist, scratch string, kinds map[string]int) (res result) {
 			}
 		case "prune":
 			lfb := c.GetLatestFinalizedBlock()
+			nv := len(versions)
 			c.VerifPruneClientState(ctx)
 			kinds["prune-called"]++
+			ver := int64(-1)
+			if len(versions) > nv {
+				ver = versions[len(versions)-1]
+				kinds["prune-below-version"]++
+				if ver > prunedMax {
+					prunedMax = ver
+				}
+				// C27_prune_version_behind_lfb on the real code
+				if ver > lfb.Round-int64(h.Count) && res.fail == "" {
+					res.fail = "prune-version-too-close-to-lfb"
+					res.failInfo = fmt.Sprintf("version %d, lfb %d, count %d", ver, lfb.Round, h.Count)
+				}
+			} else {
+				kinds["prune-abandoned-or-nothing"]++
+			}
 			var rd []bool
 			for _, br := range res.blocks {
 				_, _, ok := allNodes(pndb, br.root)
@@ -327,13 +358,13 @@ func run(h hist, scratch string, kinds map[string]int) (res result) {
 			res.chains = append(res.chains, append([]*blockRec{}, res.blocks...))
 			res.pruneAt = append(res.pruneAt, len(res.blocks))
 			res.lfbAt = append(res.lfbAt, res.maxLfb)
-			res.outs = append(res.outs, stepOut{kind: "prune", readable: rd})
+			res.outs = append(res.outs, stepOut{kind: "prune", readable: rd, ver: ver})
 			_ = lfb
 		case "rollback":
 			// a fork wins: finalizeRound sets the LFB back to the common ancestor; the rounds
 			// after it are finalized again with other blocks.  Never below what may be pruned.
 			back := st.Back
-			for back > 0 && (len(res.blocks)-1-back < 0 || res.blocks[len(res.blocks)-1-back].round < res.maxLfb-h.Count+1) {
+			for back > 0 && (len(res.blocks)-1-back < 0 || int64(res.blocks[len(res.blocks)-1-back].round) < prunedMax) {
 				back--
 			}
 			if back == 0 {
@@ -437,7 +468,11 @@ func coqCase(h hist, res result) string {
 			for _, ok := range so.readable {
 				rd = append(rd, vh.Bool(ok))
 			}
-			steps = append(steps, fmt.Sprintf("(PsPrune %s)", vh.List(rd)))
+			ver := "None"
+			if so.ver >= 0 {
+				ver = vh.Some(vh.Z(so.ver))
+			}
+			steps = append(steps, fmt.Sprintf("(PsPrune %s %s)", vh.List(rd), ver))
 		case "rollback":
 			steps = append(steps, fmt.Sprintf("(PsRollback %s)", vh.Z(int64(so.r0))))
 		}
@@ -461,7 +496,11 @@ func genHist(r *vh.Rand, big bool) hist {
 		if i > 3 && r.Chance(1, 10) {
 			// a fork wins: the last 1-3 blocks are abandoned and their rounds finalized again,
 			// 1 in 2 times starting with a block that changes nothing
-			h.Steps = append(h.Steps, step{Kind: "rollback", Back: r.Range(1, 3)})
+			h.Steps = append(h.Steps, step{Kind: "rollback", Back: r.Range(1, h.Count+3)})
+			if r.Bool() {
+				// a prune tick before the winning fork is finalized again
+				h.Steps = append(h.Steps, step{Kind: "prune"})
+			}
 			if r.Bool() {
 				h.Steps = append(h.Steps, step{Kind: "block"})
 				i++
@@ -522,6 +561,32 @@ func targeted(r *vh.Rand, variant int) hist {
 	}
 	for i := 0; i < 12+count; i++ {
 		h.Steps = append(h.Steps, step{Kind: "block", Ops: []op{{K: 10 + r.Intn(4), V: "a"}}})
+	}
+	h.Steps = append(h.Steps, step{Kind: "prune"})
+	return h
+}
+
+// targetedDeep: the common ancestor is below a multiple of 100, the abandoned fork crosses it by
+// more than prune_below_count rounds, and pruneClientState ticks after the roll back, before the
+// winning fork is finalized again (the summary ring still holds the abandoned fork).
+func targetedDeep(r *vh.Rand, variant int) hist {
+	count := r.Range(2, 4)
+	anc := 96 + r.Intn(3) // ancestor round 96..98
+	h := hist{Start: anc - 3, Count: count}
+	for i := 0; i < 4; i++ { // ... up to the ancestor
+		h.Steps = append(h.Steps, step{Kind: "block", Ops: []op{{K: i, V: "a"}, {K: i + 10, V: "b"}}})
+	}
+	depth := (100 - anc) + count + 1 + variant%2 // fork A reaches at least round 100+count
+	for i := 0; i < depth; i++ {
+		// fork A deletes and rewrites nodes of the ancestor's state
+		h.Steps = append(h.Steps, step{Kind: "block", Ops: []op{{K: i % 4}, {K: 10 + i%4, V: "c"}}})
+	}
+	h.Steps = append(h.Steps, step{Kind: "rollback", Back: depth}, step{Kind: "prune"})
+	for i := 0; i < depth+count+3; i++ { // the winning fork, with prune ticks on the way
+		h.Steps = append(h.Steps, step{Kind: "block", Ops: []op{{K: 20 + i%3, V: "a"}}})
+		if variant >= 2 && i%2 == 1 {
+			h.Steps = append(h.Steps, step{Kind: "prune"})
+		}
 	}
 	h.Steps = append(h.Steps, step{Kind: "prune"})
 	return h
@@ -588,7 +653,10 @@ func main() {
 		for v := 0; v < 4; v++ {
 			handle(targeted(rnd, v), true)
 		}
-		for i := 0; i < o.N(36, 300); i++ {
+		for v := 0; v < 4; v++ {
+			handle(targetedDeep(rnd, v), true)
+		}
+		for i := 0; i < o.N(32, 300); i++ {
 			handle(genHist(rnd, false), true)
 		}
 		for i := 0; i < o.N(8, 100); i++ {
